@@ -219,6 +219,73 @@ pub fn run(a: &Args, rep: &mut Report) {
             batch.clear();
         }
     }
+    // API histories (same operations as C10): the recorded observation sequence of each history
+    {
+        use crate::mon_c10::{exec_history, mk_pool, Op, Ver};
+        let mut rng = Rng::derive(a.seed, a.shard, 205);
+        let pool = mk_pool(&mut rng, 0);
+        let usable: Vec<usize> = (0..pool.len()).filter(|i| pool[*i].probe.is_none()).collect();
+        let nh = scale(if q { 20_000.0 } else { 1_000_000.0 }) as usize;
+        let mut hist: Vec<(crate::engines::Kind, Vec<Op>)> = Vec::new();
+        for _ in 0..nh {
+            let kind = crate::engines::KINDS[rng.below(4) as usize];
+            let mut ops = vec![Op::New(if rng.chance(1, 3) { None } else { Some(*rng.pick(&usable)) })];
+            for _ in 0..rng.range(1, 14) {
+                ops.push(match rng.below(12) {
+                    0..=2 => Op::SetProgram(*rng.pick(&usable)),
+                    3 => Op::SetVerifier(*rng.pick(&[Ver::Default, Ver::AcceptAll, Ver::RejectAll, Ver::Custom])),
+                    4 => Op::RegisterHelper(rng.below(8) as usize),
+                    5 => Op::SetCalc,
+                    6 | 7 => Op::JitCompile,
+                    8 | 9 => Op::Exec,
+                    _ => Op::ExecJit,
+                });
+            }
+            hist.push((kind, ops));
+        }
+        let pkt = crate::sys::GuardBuf::new(64, true, false);
+        pkt.fill(&[0x42u8; 64]);
+        let mbuff = crate::sys::GuardBuf::new(32, true, false);
+        let pk = (pkt.addr() as *mut u8, pkt.len());
+        let ends = crate::sys::run_batch(hist.len(), 120, 60, |i, out| {
+            let (kind, ops) = &hist[i];
+            let mb = if *kind == crate::engines::Kind::Mbuff { (mbuff.addr() as *mut u8, mbuff.len()) } else { (std::ptr::null_mut(), 0) };
+            exec_history(kind, ops, &pool, pk, mb, out);
+        });
+        for ((kind, ops), e) in hist.iter().zip(ends.iter()) {
+            let out = match e {
+                crate::sys::CaseEnd::Done(b) => {
+                    // panic messages contain paths: keep only the observation codes and values
+                    let mut s = String::new();
+                    let mut p = 0;
+                    while p < b.len() {
+                        match b[p] {
+                            2 => {
+                                s.push_str(&format!("V{:x} ", u64::from_le_bytes(b[p + 1..p + 9].try_into().unwrap())));
+                                p += 9;
+                            }
+                            3 => {
+                                s.push_str("PANIC");
+                                break;
+                            }
+                            c => {
+                                s.push_str(["Ok ", "Err ", "", "", "- "][c.min(4) as usize]);
+                                p += 1;
+                            }
+                        }
+                    }
+                    s
+                }
+                crate::sys::CaseEnd::Died(sig, _) => format!("SIGNAL({})", sys::signame(*sig)),
+                crate::sys::CaseEnd::CpuTimeout => "DIVERGED".into(),
+                crate::sys::CaseEnd::Inconclusive(x) => {
+                    rep.inconclusive(x.clone());
+                    "INCONCLUSIVE".into()
+                }
+            };
+            line(rep, "api", format!("{}|{:?}", kind.name(), ops), out);
+        }
+    }
     let _ = f.flush();
     rep.sample(serde_json::json!({"transcript": tpath}));
 }
